@@ -191,6 +191,17 @@ func (img *PageImage) ToPNG() ([]byte, error) {
 
 	// Check if the data is still JPEG-encoded (DCTDecode returns raw JPEG)
 	if len(img.Data) >= 2 && img.Data[0] == 0xFF && img.Data[1] == 0xD8 {
+		// The decoder allocates what the frame header declares. Entropy-coded
+		// data need at least a few bits per 8x8 block, so a header declaring
+		// more than 1024 pixels per byte of data cannot be backed by the data.
+		cfg, cfgErr := jpeg.DecodeConfig(bytes.NewReader(img.Data))
+		if cfgErr != nil {
+			return nil, fmt.Errorf("failed to decode JPEG: %w", cfgErr)
+		}
+		if int64(cfg.Width)*int64(cfg.Height) > 1024*int64(len(img.Data)) {
+			return nil, fmt.Errorf("failed to decode JPEG: frame header declares %dx%d pixels for %d bytes of data", cfg.Width, cfg.Height, len(img.Data))
+		}
+
 		// Decode JPEG data
 		goImg, err = jpeg.Decode(bytes.NewReader(img.Data))
 		if err != nil {
